@@ -207,3 +207,158 @@ func mapHas(o jsonObject, k string) bool {
 	_, ok := o[k]
 	return ok
 }
+
+// ---------------------------------------------------------------------
+// Strict list-mode patch semantics (property C03), written from the
+// documented meaning of a hunk, not from the implementation.
+
+// specListPath: the path addresses object keys and list indices only.
+func specListPath(p Path) bool {
+	return forallInt(0, len(p), func(i int) bool {
+		switch p[i].(type) {
+		case PathKey, PathIndex:
+			return true
+		}
+		return false
+	})
+}
+
+func specSingle(l []JsonNode) JsonNode {
+	if len(l) == 0 {
+		return voidNode{}
+	}
+	return l[0]
+}
+
+// specIsListy: the node is an array that a PathIndex may address.
+func specIsListy(n JsonNode) bool {
+	switch n.(type) {
+	case jsonArray, jsonList:
+		return true
+	}
+	return false
+}
+
+func specElems(n JsonNode) []JsonNode {
+	switch v := n.(type) {
+	case jsonArray:
+		return v
+	case jsonList:
+		return v
+	case jsonSet:
+		return v
+	case jsonMultiset:
+		return v
+	}
+	return nil
+}
+
+// specChild: the member of o under key k, or void when absent.
+func specChild(o jsonObject, k string) JsonNode {
+	if v, ok := o[k]; ok {
+		return v
+	}
+	return voidNode{}
+}
+
+// specCtx: a context line c matches position k of l: the element there, or
+// the array boundary for a void marker.
+func specCtx(c JsonNode, l []JsonNode, k int) bool {
+	if k >= 0 && k < len(l) {
+		return specEq(c, l[k], nil)
+	}
+	return isVoid(c) && (k == -1 || k == len(l))
+}
+
+// specListLeafOK: the hunk (before, remove, add, after) applies at index i of l.
+// Index -1 appends; its context lines are placeholders and are not checked.
+func specListLeafOK(l []JsonNode, i int, before, remove, after []JsonNode) bool {
+	if i == -1 {
+		return len(remove) == 0
+	}
+	if i < 0 || i+len(remove) > len(l) {
+		return false
+	}
+	return forallInt(0, len(remove), func(k int) bool { return specEq(l[i+k], remove[k], nil) }) &&
+		forallInt(0, len(before), func(j int) bool { return specCtx(before[j], l, i-(len(before)-j)) }) &&
+		forallInt(0, len(after), func(j int) bool { return specCtx(after[j], l, i+len(remove)+j) })
+}
+
+// specSplice: ret is l with nr elements at i replaced by add.
+func specSplice(ret, l, add []JsonNode, i, nr int) bool {
+	return len(ret) == len(l)-nr+len(add) &&
+		forallInt(0, i, func(k int) bool { return same(ret[k], l[k]) }) &&
+		forallInt(0, len(add), func(k int) bool { return same(ret[i+k], add[k]) }) &&
+		forallInt(i+nr, len(l), func(k int) bool { return same(ret[k-nr+len(add)], l[k]) })
+}
+
+// specStrictOK: a strict hunk applies to n.
+func specStrictOK(n JsonNode, path Path, before, remove, add, after []JsonNode) bool {
+	if len(path) == 0 {
+		return len(remove) <= 1 && len(add) <= 1 && specEq(n, specSingle(remove), nil)
+	}
+	switch pe := path[0].(type) {
+	case PathKey:
+		o, ok := n.(jsonObject)
+		return ok && specStrictOK(specChild(o, string(pe)), path[1:], before, remove, add, after)
+	case PathIndex:
+		if !specIsListy(n) {
+			return false
+		}
+		l := specElems(n)
+		if len(path) == 1 {
+			return specListLeafOK(l, int(pe), before, remove, after)
+		}
+		return 0 <= int(pe) && int(pe) < len(l) && specStrictOK(l[int(pe)], path[1:], before, remove, add, after)
+	}
+	return false
+}
+
+// specStrictRes: ret is the result of applying an applicable strict hunk to n:
+// only what the hunk says changes.
+func specStrictRes(n JsonNode, path Path, remove, add []JsonNode, ret JsonNode) bool {
+	if len(path) == 0 {
+		return same(ret, specSingle(add))
+	}
+	switch pe := path[0].(type) {
+	case PathKey:
+		o, ok := n.(jsonObject)
+		r, rok := ret.(jsonObject)
+		if !ok || !rok {
+			return false
+		}
+		k := string(pe)
+		return specStrictRes(specChild(o, k), path[1:], remove, add, specChild(r, k)) &&
+			forallKey(o, r, func(q string) bool {
+				return q == k || (mapHas(o, q) == mapHas(r, q) && same(o[q], r[q]))
+			})
+	case PathIndex:
+		if !specIsListy(n) || !specIsListy(ret) {
+			return false
+		}
+		l := specElems(n)
+		r := specElems(ret)
+		i := int(pe)
+		if len(path) == 1 {
+			if i == -1 {
+				return specSplice(r, l, add, len(l), 0)
+			}
+			return specSplice(r, l, add, i, len(remove))
+		}
+		return len(r) == len(l) && 0 <= i && i < len(l) &&
+			specStrictRes(l[i], path[1:], remove, add, r[i]) &&
+			forallInt(0, len(l), func(q int) bool { return q == i || same(r[q], l[q]) })
+	}
+	return false
+}
+
+// specRemoveInv: state of the remove loop of jsonList.patch after k = len(rm0)-len(rm)
+// elements have been matched and removed at index i.
+func specRemoveInv(l0, l, rm0, rm []JsonNode, i int) bool {
+	k := len(rm0) - len(rm)
+	return 0 <= k && 0 <= i && i <= len(l) && len(l) == len(l0)-k &&
+		forallInt(0, len(rm), func(j int) bool { return same(rm[j], rm0[k+j]) }) &&
+		forallInt(0, i, func(j int) bool { return same(l[j], l0[j]) }) &&
+		forallInt(i, len(l), func(j int) bool { return same(l[j], l0[j+k]) }) &&
+		forallInt(0, k, func(j int) bool { return specEq(l0[i+j], rm0[j], nil) })
+}
